@@ -29,6 +29,7 @@ import (
 
 	"github.com/skycoin/skycoin/src/cipher"
 	"github.com/skycoin/skycoin/src/cipher/bip39"
+	"github.com/skycoin/skycoin/src/cipher/bip44"
 	"github.com/skycoin/skycoin/src/cipher/chacha20poly1305"
 	"github.com/skycoin/skycoin/src/cipher/crypto"
 	"github.com/skycoin/skycoin/src/cipher/encrypt"
@@ -38,6 +39,7 @@ import (
 	"github.com/skycoin/skycoin/src/wallet/bip44wallet"
 	"github.com/skycoin/skycoin/src/wallet/collection"
 	"github.com/skycoin/skycoin/src/wallet/deterministic"
+	"github.com/skycoin/skycoin/src/wallet/xpubwallet"
 )
 
 var xorErrs = map[error]string{
@@ -275,8 +277,26 @@ func execLock(f []string) string {
 			leak++
 		}
 	}
-	// every public part is unchanged: compare after blanking the secret fields of the original
+	// Unlock / Clone are PURE: the wallet the call is made on must be byte-for-byte what it was, and
+	// must still be free of every secret, whatever happens to the returned / cloned wallet
+	purity := "ok"
+	check := func(what string) {
+		if purity != "ok" {
+			return
+		}
+		now, err := w.Serialize()
+		must(err)
+		if !bytes.Equal(now, locked) {
+			purity = "changed-after-" + what
+		}
+		for _, s := range origSecrets {
+			if bytes.Contains(now, []byte(s)) {
+				purity = "leak-after-" + what
+			}
+		}
+	}
 	u, err := w.Unlock(pw)
+	check("unlock")
 	same := "err:" + wErr(err)
 	if err == nil {
 		ub, err := u.Serialize()
@@ -286,14 +306,91 @@ func execLock(f []string) string {
 		} else {
 			same = "different"
 		}
+		// what is done to the unlocked copy stays in the copy
+		u.SetLabel("changed in the copy")
+		_, gerr := u.GenerateAddresses(wallet.OptionGenerateN(1))
+		_ = gerr
+		check("use-of-unlocked-copy")
+		u.Erase()
+		check("erase-of-unlocked-copy")
 	}
 	_, werr := w.Unlock(pw2)
+	check("failed-unlock")
 	_, eerr := w.Unlock(nil)
+	check("failed-unlock")
+	c := w.Clone()
+	if cu, err := c.Unlock(pw); err == nil {
+		cu.Erase()
+	}
+	c.SetLabel("clone")
+	c.Erase()
+	check("use-of-clone")
 	again := w.Lock(pw)
+	check("refused-lock")
 	// reload the locked wallet from its serialised form and unlock that too
 	reload := "reload=" + reloadUnlock(typ, locked, pw, orig)
-	return fmt.Sprintf("lock=ok nsecrets=%d clear=%d leak=%d enc=%v unlock=%s wrong=%s emptypw=%s again=%s %s",
-		len(origSecrets), clear, leak, w.IsEncrypted(), same, wErr(werr), wErr(eerr), wErr(again), reload)
+	return fmt.Sprintf("lock=ok nsecrets=%d clear=%d leak=%d enc=%v unlock=%s wrong=%s emptypw=%s again=%s %s purity=%s",
+		len(origSecrets), clear, leak, w.IsEncrypted(), same, wErr(werr), wErr(eerr), wErr(again), reload, purity)
+}
+
+// execAlias: a wallet and its Clone share nothing — for all four wallet types, locking, erasing,
+// relabelling or extending the clone leaves the original's serialisation unchanged, and vice versa.
+func execAlias(f []string) string {
+	typ, seed, n := f[1], PHex(f[2]), int(PU64(f[3]))
+	var w wallet.Wallet
+	if typ == "xpub" {
+		ent := make([]byte, 16)
+		copy(ent, seed)
+		m, err := bip39.NewMnemonic(ent)
+		must(err)
+		sd, err := bip39.NewSeed(m, "")
+		must(err)
+		c, err := bip44.NewCoin(sd, bip44.CoinTypeSkycoin)
+		must(err)
+		acct, err := c.Account(0)
+		must(err)
+		ext, err := acct.External()
+		must(err)
+		w, err = xpubwallet.NewWallet("x.wlt", "label", ext.PublicKey().String(), wallet.OptionGenerateN(uint64(n)))
+		must(err)
+	} else {
+		w = mkWallet(typ, crypto.CryptoTypeSha256Xor, seed, n)
+	}
+	before, err := w.Serialize()
+	must(err)
+	unchanged := func(x wallet.Wallet, ref []byte) bool {
+		b, err := x.Serialize()
+		must(err)
+		return bytes.Equal(b, ref)
+	}
+	steps := []struct {
+		name string
+		do   func(c wallet.Wallet)
+	}{
+		{"label", func(c wallet.Wallet) { c.SetLabel("other") }},
+		{"generate", func(c wallet.Wallet) { _, _ = c.GenerateAddresses(wallet.OptionGenerateN(2)) }},
+		{"lock", func(c wallet.Wallet) { _ = c.Lock([]byte("pw")) }},
+		{"erase", func(c wallet.Wallet) { c.Erase() }},
+	}
+	for _, st := range steps {
+		c := w.Clone()
+		st.do(c)
+		if !unchanged(w, before) {
+			return "aliased clone-" + st.name
+		}
+	}
+	// and the other way round: the clone is a snapshot
+	c := w.Clone()
+	snap, err := c.Serialize()
+	must(err)
+	for _, st := range steps {
+		w2 := c.Clone()
+		st.do(w2)
+		if !unchanged(c, snap) {
+			return "aliased original-" + st.name
+		}
+	}
+	return "ok pure"
 }
 
 // ---- exec ----
@@ -313,6 +410,8 @@ func c18Exec(op string) string {
 		return execEnc(f)
 	case "lock":
 		return execLock(f)
+	case "alias":
+		return execAlias(f)
 	}
 	panic("harness: unknown op " + f[0])
 }
@@ -656,6 +755,11 @@ func c18Gen(r *Rng, tier string, emit func(string)) {
 		}
 	}
 	emit(fmt.Sprintf("lock deterministic %s %s 2 - %s", cts[0], Hex(r.Bytes(16)), Hex([]byte("x"))))
+	for i := 0; i < 3*scale; i++ {
+		for _, typ := range []string{"deterministic", "bip44", "collection", "xpub"} {
+			emit(fmt.Sprintf("alias %s %s %d", typ, Hex(r.Bytes(16)), 1+r.Intn(4)))
+		}
+	}
 }
 
 // mkXorWithLen is mkXor with an arbitrary inner length field.
